@@ -367,7 +367,7 @@ pub fn checks() -> Vec<CheckSpec> {
             &["byte stream: SimPipe with virtual latency", "peers and handlers: scripted"],
             &["clock read through hook H1; all virtual instants are whole milliseconds"]),
         spec("C08", "exploration",
-            vec![gen("server.general", 2, g_server_general), gen("server.dups", 3, g_server_dups), gen("server.cancel", 1, g_server_cancel), gen("server.shutdown", 1, g_server_shutdown), gen("server.parked", 1, g_server_parked)],
+            vec![gen("server.general", 2, g_server_general), gen("server.dups", 3, g_server_dups), gen("server.cancel", 1, g_server_cancel), gen("server.shutdown", 1, g_server_shutdown), gen("server.parked", 1, g_server_parked), gen("server.long", 1, g_server_long)],
             q, t,
             "scripted peer sends fresh ids, duplicates while in flight, ids reused after their response, cancels and close; handlers complete in every order; response buffer 1,2,3,100",
             SERVER_REAL, SERVER_STUB, &["id reuse after cancel/expiry with a still-buffered response is outside the property's quantifier and excluded from response attribution"]),
@@ -383,7 +383,7 @@ pub fn checks() -> Vec<CheckSpec> {
             "client: last handle dropped / peer EOF at a random point of every run plus at the end of every run; server: inbound EOF after the script with mixed in-flight work",
             BOTH_REAL, BOTH_STUB, &[]),
         spec("C11", "exploration",
-            vec![gen("client.general", 2, g_client_general), gen("client.abandon", 2, g_client_abandon), gen("server.general", 2, g_server_general), gen("server.cancel", 1, g_server_cancel), gen("server.dups", 1, g_server_dups), gen("server.parked", 1, g_server_parked), gen("e2e.general", 1, g_e2e_general), gen("server.faults", 1, g_server_faults), gen("client.faults", 1, g_client_faults)],
+            vec![gen("client.general", 2, g_client_general), gen("client.abandon", 2, g_client_abandon), gen("server.general", 2, g_server_general), gen("server.cancel", 1, g_server_cancel), gen("server.dups", 1, g_server_dups), gen("server.parked", 1, g_server_parked), gen("e2e.general", 1, g_e2e_general), gen("server.faults", 1, g_server_faults), gen("client.faults", 1, g_client_faults), gen("server.long", 1, g_server_long), gen("client.long", 1, g_client_long)],
             q, t,
             "in-flight and timer counts (hook H3) sampled after every dispatch / request-stream poll, compared with an interval model at every sample and at every idle point",
             BOTH_REAL, BOTH_STUB, &[]),
